@@ -22,6 +22,12 @@ func init() {
 		imsi := str(in, "imsi")
 		mnclen := int(num(in, "mnclen"))
 		out := map[string]interface{}{}
+		// "via":"createue": the identity comes from the UE context as in RegisterUE (CreateUE(imsi, 0, ...) then
+		// EncodeSuci(ue.Supi minus "imsi-")), not from the configured string
+		if str(in, "via") == "createue" {
+			u := stgutg.CreateUE(strings.TrimPrefix(imsi, "imsi-"), 0, "465b5ce8b199b49faa5f0a2ee238a6bc", "e8ed289deba952e4283b54e88e6183ca", "")
+			imsi = u.Supi
+		}
 		id := stgutg.EncodeSuci([]byte(strings.TrimPrefix(imsi, "imsi-")), mnclen)
 		out["buf"] = hx(id.Buffer)
 		out["len"] = id.Len
